@@ -4,6 +4,7 @@ import (
 	"os"
 	"path/filepath"
 	"testing"
+	"time"
 )
 
 // c50RoundTrip exports one row (v, 'x') with SELECT ... INTO OUTFILE and loads the file back with LOAD DATA using
@@ -79,5 +80,29 @@ func TestC50NullMarkerWhenEnclosureEqualsEscape(t *testing.T) {
 	src, dst := show(mustRun(t, e, ctx, "SELECT a, b FROM src")), show(mustRun(t, e, ctx, "SELECT a, b FROM dst"))
 	if src != dst {
 		t.Errorf("exported %s, reloaded %s", src, dst)
+	}
+}
+
+// Observation made while demonstrating the C50-O findings; NOT reported by a rule (which values of an option make the
+// reader's splitting degenerate is a value-level question): LINES TERMINATED BY '' is accepted by both statements, the writer
+// concatenates the rows, and LOAD DATA never returns (plan.LoadData.SplitLines finds the empty terminator at offset 0 and never
+// advances; loadDataIter.Next keeps skipping the empty lines).
+func TestC50LoadDataEmptyLineTerminatorTerminates(t *testing.T) {
+	e, ctx := newEngine(t)
+	file := filepath.Join(t.TempDir(), "out.txt")
+	mustRun(t, e, ctx, "CREATE TABLE src (a varchar(50), b varchar(50))")
+	mustRun(t, e, ctx, "CREATE TABLE dst (a varchar(50), b varchar(50))")
+	mustRun(t, e, ctx, "INSERT INTO src VALUES ('a','b'),('c','d')")
+	mustRun(t, e, ctx, "SELECT a, b FROM src INTO OUTFILE '"+file+"' LINES TERMINATED BY ''")
+	done := make(chan error, 1)
+	go func() {
+		_, err := run(t, e, ctx, "LOAD DATA INFILE '"+file+"' INTO TABLE dst LINES TERMINATED BY ''")
+		done <- err
+	}()
+	select {
+	case err := <-done:
+		t.Logf("LOAD DATA returned: %v", err)
+	case <-time.After(5 * time.Second):
+		t.Fatalf("LOAD DATA ... LINES TERMINATED BY '' did not return within 5s (the query never terminates)")
 	}
 }
